@@ -11,7 +11,18 @@ the independent reference server of the harness; what the real code did is
 compared with the model (DRIFT) and every recorded trace -- model-derived and
 randomised with the real parameters (lengths around every block boundary,
 server exponents 0..6, client maxima 0..6, reductions, faults, losses) -- is
-validated by TLC against BlockClientTrace.tla clause by clause."""
+validated by TLC against BlockClientTrace.tla clause by clause.
+
+Extension (notes/C05.md, "Second extension"): error responses (4.08 / 4.13 with and
+without hints / 4.00 / 5.xx) in the middle of either phase, an ETag on some
+blocks only, a representation that shrinks below the offset reached, a server
+that answers above the requested size exponent (Block1 and Block2), several
+lost / duplicated / late datagrams per transfer (a second exhaustive
+configuration with a loss budget of 3 and no faults; seeded lossy networks
+on the real code), and concurrent transfers from one context: spec/BlockClientPair.tla
+(two transfers sharing the token source, the server answering in every order;
+known-bad variant with a token handed out twice) whose simulated behaviours
+become two-transfer schedules with the server's answer order."""
 
 import json
 import os
@@ -31,19 +42,37 @@ CONSTANTS
   NsWide = {%(NsWide)s}
   MsFew = {%(MsFew)s}
   MaxSzx = 2
-  NetBudget = 1
-  FaultBudget = 1
+  NetBudget = %(nb)s
+  FaultBudget = %(fbud)s
   FixFirstNum = TRUE
   Combined = %(comb)s
   AckStyles = {%(styles)s}
   FaultAt = {%(at)s}
   NetAt = {%(at)s}
+  XFaults = {%(xf)s}
+  ErrCodes = {%(ecodes)s}
+  ErrLens = {%(elens)s}
 %(extra)s
 """
 
 LENS = [0, 1, 15, 16, 17, 1023, 1024, 1025, 1124, 1125, 2048, 2049, 5000]
-FAULTS = ["b1num", "b1numlo", "b1more", "b1cont", "b2num", "b2numlo", "b2skip", "b2prev", "b2short", "b2empty", "b2over", "etag"]
+FAULTS = ["b1num", "b1numlo", "b1more", "b1cont", "b2num", "b2numlo", "b2skip", "b2prev", "b2short", "b2empty", "b2over", "etag", "b2big"]
 LEN_FAULTS = ("b2short", "b2empty", "b2over")
+# environment decisions of the second extension: no violations of the sequencing rules named in the statement
+XFAULTS = ["e1", "e2", "etsome", "b2grow", "b1grow"]
+XF_ALL = '"e1", "e2", "etsome", "b2grow", "b1grow", "shrink"'
+ERRCODES = [128, 136, 141, 160, 163]      # 4.00 4.08 4.13 5.00 5.03
+
+PAIR_CFG = """SPECIFICATION Spec
+CONSTANTS
+  PNs = {%(ns)s}
+  PMs = {%(ms)s}
+  PCs = {%(cs)s}
+  PSs = {%(ss)s}
+  PStyles = {"a", "s"}
+  FreshTokens = %(fresh)s
+%(extra)s
+"""
 
 
 def cset(xs):
@@ -79,9 +108,11 @@ def behaviour_to_schedule(beh, seed):
                     sched["reps"][e["rid"] - 1] = {"len": e["len"], "etag": e["etag"] >= 0}
             if act["flt0"] != "none":
                 k = act["flt0"]
-                nth = act["nb1"] if k in ("b1num", "b1numlo") else act["nb2"] if (k.startswith("b2") or k == "etag") else 0
+                nth = act["nb1"] if k in ("b1num", "b1numlo", "e1", "b1grow") else act["nb2"] if (k.startswith("b2") or k in ("etag", "e2", "etsome")) else 0
                 sched["fault"] = {"kind": k, "nth": nth, "short": act["sh"], "over": "double" if act["dbl"] else "one",
-                                  "repeat": bool(act["rp"])}
+                                  "repeat": bool(act["rp"]), "by": act["sh"]}
+                if k in ("e1", "e2"):
+                    sched["fault"].update(ecode=act["ec"], elen=act["el"], echo=bool(act["echo"]), hint=act["a1"] if act["echo"] else None)
             if act["fate"] != "ok":
                 sched["net"][str(act["nreq"])] = act["fate"]
     sched["s1"] = sched["s1"] or [2]
@@ -147,15 +178,11 @@ def random_schedule(rng, i):
         while M > 60 * 2 ** (4 + min(C, min(s2))):
             C = min(6, C + 1)
             s2 = [min(6, x + 1) for x in s2]
-    fault = None
-    if rng.random() < 0.5:
-        kind = rng.choice(FAULTS)
-        fault = {"kind": kind, "nth": rng.choice([0, 0, 1, 1, 2, 3, rng.randint(0, 12)]), "short": rng.choice([1, 7, 15, 31, 500, 1023]),
-                 "over": rng.choice(["one", "double"]), "repeat": kind in LEN_FAULTS and rng.random() < 0.5}
+    fault = random_fault(rng, 0.5)
     net = {}
     if rng.random() < 0.45:
         for _ in range(rng.choice([1, 1, 1, 2, 3])):
-            net[str(rng.choice([1, 1, 2, 2, 3, 4, rng.randint(1, 14)]))] = rng.choice(["dropreq", "dropresp", "dupresp", "dupreq"])
+            net[str(rng.choice([1, 1, 2, 2, 3, 4, rng.randint(1, 14)]))] = rng.choice(["dropreq", "dropresp", "dupresp", "dupreq", "slow", "late"])
     # ETag of representation 1 / 2: independent (ETag/ETag, none/ETag, ETag/none, none/none)
     etag = rng.random() < 0.75
     return {
@@ -168,7 +195,207 @@ def random_schedule(rng, i):
         "ack": ack_style(rng), "ackcode": rng.choice([68, 68, 65]),
         "dedup": rng.random() < 0.7,
         "con": True if net else rng.random() < 0.85,
+        "b2req": rng.randint(0, 6) if rng.random() < 0.12 else None,
     }
+
+
+def random_fault(rng, p):
+    if rng.random() >= p:
+        return None
+    kind = rng.choice(FAULTS + XFAULTS + ["e1", "e2"]) if rng.random() < 0.6 else rng.choice(FAULTS)
+    nth = rng.choice([0, 0, 1, 1, 2, 3, rng.randint(0, 12)])
+    if kind in ("e1", "e2"):
+        return err_fault(rng, kind, nth)
+    return {"kind": kind, "nth": nth, "short": rng.choice([1, 7, 15, 31, 500, 1023]), "by": rng.choice([1, 2, 6, 6]),
+            "over": rng.choice(["one", "double"]), "repeat": kind in LEN_FAULTS and rng.random() < 0.5}
+
+
+def err_fault(rng, kind, nth, code=None, echo=None):
+    """an error response in the middle of the transfer: 4.00 / 4.08 / 4.13 / 5.00 / 5.03, diagnostic payload or none;
+    on a Block1 request with the Block1 option echoed (possibly naming a smaller size) or without, 4.13 possibly
+    with a Size1 hint"""
+    code = rng.choice(ERRCODES) if code is None else code
+    f = {"kind": kind, "nth": nth, "ecode": code, "elen": rng.choice([0, 5, 23])}
+    if kind == "e1":
+        f["echo"] = (rng.random() < 0.5) if echo is None else echo
+        if f["echo"] and rng.random() < 0.6:
+            f["hint"] = rng.randint(0, 6)
+        if code == 141 and rng.random() < 0.6:
+            f["size1"] = rng.choice([16, 100, 1024])
+    return f
+
+
+def lossy_net(rng, nonconfirmable=False):
+    return {"p": rng.choice([0.1, 0.2, 0.3, 0.45]), "seed": rng.randint(0, 2 ** 30), "maxrun": rng.choice([1, 2, 3, 3])}
+
+
+def blocks_len(rng, blocks, szx):
+    size = 2 ** (szx + 4)
+    n = blocks * size - rng.choice([0, 1, size - 1])
+    return max(n, 1125) if szx == 6 and blocks > 1 else n
+
+
+def one_transfer(rng, up, down, szx, **kw):
+    """a fault-free transfer of `up` blocks up and `down` blocks down at exponent szx (0 blocks: no body that way)"""
+    N = blocks_len(rng, up, szx) if up else 0
+    M = blocks_len(rng, down, szx) if down else rng.choice([0, 3])
+    d = {"code": (1 if rng.random() < 0.7 else 5) if N == 0 else rng.choice([2, 3, 5]), "N": N,
+         "C": szx if rng.random() < 0.7 else rng.randint(szx, 6),
+         "reps": [{"len": M, "etag": rng.random() < 0.8}, {"len": M + rng.choice([0, 1, 16]), "etag": True}],
+         "query": rng.choice([["v=2"], ["a=1", "b=2"], None]), "accept": rng.choice([None, 60]),
+         "s1": [szx] if rng.random() < 0.7 else [szx, max(0, szx - 1)],
+         "s2": [szx] if rng.random() < 0.7 else [szx, max(0, szx - 1)],
+         "fault": None, "ack": ack_style(rng), "ackcode": rng.choice([68, 65]), "con": True}
+    d.update(kw)
+    return d
+
+
+def top(rng, d=None, **kw):
+    out = {"mid0": rng.randint(0, 65535), "tok0": rng.randint(0, 65535), "net": {}, "dedup": rng.random() < 0.7}
+    out.update(d or {})
+    out.update(kw)
+    return out
+
+
+def random_multi(rng):
+    """two or three concurrent transfers (different resources) from one context, the server answering in a random order"""
+    n = rng.choice([2, 2, 2, 3])
+    trs = []
+    for i in range(n):
+        shape = rng.choice(["up", "down", "both", "both"])
+        szx = rng.randint(0, 6)
+        d = one_transfer(rng, rng.choice([1, 2, 3, 5, 9]) if shape != "down" else 0, rng.choice([1, 2, 3, 5, 9]) if shape != "up" else 0, szx)
+        if rng.random() < 0.3:
+            d["N"] = rng.choice(LENS[:-1])
+            d["C"] = max(d["C"], 3)
+            d["s1"] = [max(3, x) for x in d["s1"]]
+            if d["N"] == 0:
+                d["code"] = 1
+            elif d["code"] == 1:
+                d["code"] = 2
+        d["fault"] = random_fault(rng, 0.25)
+        trs.append(d)
+    # confirmable requests to one peer leave the client one at a time (NSTART = 1): only non-confirmable transfers
+    # have requests pending at the server side by side
+    kind = rng.choice(["con", "non", "non", "mixed"])
+    for d in trs:
+        d["con"] = kind == "con" or (kind == "mixed" and rng.random() < 0.5)
+    net = {}
+    if rng.random() < 0.3:
+        for _ in range(rng.choice([1, 2, 3])):
+            net[str(rng.randint(1, 20))] = rng.choice(["dropreq", "dropresp", "dupresp", "dupreq", "slow", "late"])
+    s = top(rng, transfers=trs, order=[rng.randrange(n) for _ in range(rng.choice([0, 10, 40, 80]))], net=net)
+    if not net and rng.random() < 0.15:
+        s["lossy"] = lossy_net(rng)
+        s["horizon"] = 4000
+    return s
+
+
+def xmatrix_schedules(rng, quick=True):
+    """The situations of the second extension, each at a first / middle / final block with real sizes
+    (quick: the smallest and the largest block size, fewer variants)."""
+    out = []
+    ends = (0, 6) if quick else (0, 3, 6)
+    # (a) an error response instead of the acknowledgement of a Block1 request: every code x Block1 echoed or not x position
+    for code in ERRCODES:
+        for echo in (False, True):
+            for pos in ("first", "middle", "final"):
+                for szx in ends:
+                    blocks = rng.choice([3, 5])
+                    d = one_transfer(rng, blocks, rng.choice([0, 1, 3]), szx, C=szx, s1=[szx])
+                    d["fault"] = err_fault(rng, "e1", {"first": 0, "middle": rng.randint(1, blocks - 2), "final": blocks - 1}[pos], code, echo)
+                    out.append(top(rng, d))
+    # (b) an error response to a Block2 continuation request (after a plain request and after an upload)
+    for code in ERRCODES:
+        for pos in (1, 2, "last"):
+            for szx in ends:
+                blocks = rng.choice([3, 4, 6])
+                d = one_transfer(rng, rng.choice([0, 0, 2]), blocks, szx, C=szx, s2=[szx])
+                d["fault"] = err_fault(rng, "e2", blocks - 1 if pos == "last" else pos, code)
+                out.append(top(rng, d))
+    # (c) the ETag of an unchanged representation on some blocks only; (d) a representation that shrinks to / below the
+    # offset reached (4.00), or to just above it; (e) changes no ETag shows, to a shorter and to a longer representation
+    for nth in (1, 2):
+        for szx in ends:
+            size = 2 ** (szx + 4)
+            for et1 in (True, False):
+                d = one_transfer(rng, 0, 4, szx, C=szx, s2=[szx])
+                d["reps"][0]["etag"] = et1
+                d["fault"] = {"kind": "etsome", "nth": nth}
+                out.append(top(rng, d))
+                for et2 in (True, False):
+                    for m2 in ((5, nth * size, nth * size + 1, 9 * size) if quick else (0, 5, nth * size - 1, nth * size, nth * size + 1, 3 * size - 1, 9 * size)):
+                        d = one_transfer(rng, rng.choice([0, 0, 2]), 4, szx, C=szx, s2=[szx])
+                        d["reps"] = [{"len": d["reps"][0]["len"], "etag": et1}, {"len": m2, "etag": et2}]
+                        d["fault"] = {"kind": "etag", "nth": nth}
+                        out.append(top(rng, d))
+    # (f) a server that answers a Block2 request above the requested exponent: continuation requests, and the
+    # application's own Block2 option in the request; (g) the same in a Block1 acknowledgement
+    for szx in ((0, 3, 5) if quick else (0, 1, 3, 5)):
+        for nth in ((1, 2, 4) if quick else (1, 2, 3, 4)):
+            for cmax in (szx, szx + 1, 6):
+                d = one_transfer(rng, rng.choice([0, 0, 2]), 9, szx, C=cmax, s2=[szx])
+                d["fault"] = {"kind": "b2grow", "nth": nth}
+                out.append(top(rng, d))
+        for cmax in (szx, 6):
+            d = one_transfer(rng, 0, 5, szx, C=cmax, s2=[szx], b2req=szx)
+            d["fault"] = {"kind": "b2grow", "nth": rng.choice([0, 0, 1])}
+            out.append(top(rng, d))
+            d = one_transfer(rng, 0, 5, szx, C=cmax, s2=[rng.randint(0, 6)], b2req=szx)
+            out.append(top(rng, d))
+        for nth in (0, 1, 2):
+            d = one_transfer(rng, 5, rng.choice([0, 2]), szx, C=szx, s1=[szx])
+            d["fault"] = {"kind": "b1grow", "nth": nth}
+            out.append(top(rng, d))
+    # (f') "restart bigger" (seeded change C05-seed4): after an odd number of small blocks the continuation request is
+    # answered with the larger block that contains the offset -- the whole representation as block 0 / final, or a
+    # block that announces more; the small size comes from the client maximum or from the application's Block2 option
+    for szx in (0, 2, 4):
+        size = 2 ** (szx + 4)
+        for nth in (1, 3):
+            for by in (1, 2, 6):
+                big = 2 ** (min(6, szx + by) + 4)
+                for M in (big - rng.choice([0, 1, 24]), max((nth + 1) * size + 1, big + rng.choice([1, big // 2, 3 * big]))):
+                    if M <= nth * size:
+                        continue
+                    hint = rng.random() < 0.5
+                    d = one_transfer(rng, rng.choice([0, 0, 2]), 1, szx, C=6 if hint else szx, s2=[szx], b2req=szx if hint else None)
+                    d["reps"] = [{"len": M, "etag": rng.random() < 0.7}, {"len": M, "etag": True}]
+                    d["fault"] = {"kind": "b2big", "nth": nth, "by": by}
+                    out.append(top(rng, d))
+    # (h) a large request body whose response is large too: the acknowledgement of the last Block1 request carries
+    # Block2 0/more; reductions in both phases; some with a lost / duplicated / late datagram
+    for up in (2, 3, 5):
+        for down in (2, 3, 5):
+            for szx in (0, 3, 6):
+                for ack in ((rng.choice([["a"], ["s"]]),) if quick else (["a"], ["s"])):
+                    d = one_transfer(rng, up, down, szx, ack=ack)
+                    net = {}
+                    if rng.random() < 0.3:
+                        net[str(rng.randint(1, up + down))] = rng.choice(["dropreq", "dropresp", "dupresp", "dupreq", "slow", "late"])
+                    out.append(top(rng, d, net=net))
+    # (i) concurrent transfers: two uploads, upload + download, two downloads, two combined ones; the server answers
+    # strictly alternating, one transfer first, the other first, at random
+    for shapes in ((("up", "up"), ("up", "down"), ("down", "down"), ("both", "both"), ("down", "both"))):
+        for szx in (0, 3):
+            for pattern in ("alternate", "first", "second", "random"):
+                for con in ((False, True) if pattern in ("alternate", "random") or not quick else (False,)):
+                    trs = [one_transfer(rng, rng.choice([2, 3, 5]) if sh != "down" else 0, rng.choice([2, 3, 5]) if sh != "up" else 0, szx, con=con)
+                           for sh in shapes]
+                    order = {"alternate": [0, 1] * 12, "first": [0] * 30, "second": [1] * 30,
+                             "random": [rng.randrange(2) for _ in range(30)]}[pattern]
+                    out.append(top(rng, transfers=trs, order=order))
+    # (j) lossy networks (seeded; up to MAX_RETRANSMIT - 1 consecutive losses of one exchange, duplicates, late and
+    # slow copies), confirmable; non-confirmable transfers with duplicated, delayed and late copies only
+    for i in range(24 if quick else 36):
+        szx = rng.choice([0, 2, 4, 6])
+        d = one_transfer(rng, rng.choice([0, 2, 4, 7]), rng.choice([0, 2, 4, 7]), szx)
+        out.append(top(rng, d, lossy=lossy_net(rng), horizon=4000))
+    for i in range(8 if quick else 12):
+        szx = rng.choice([0, 2, 4, 6])
+        d = one_transfer(rng, rng.choice([0, 2, 4]), rng.choice([0, 2, 4]), szx, con=False)
+        out.append(top(rng, d, lossy=lossy_net(rng), horizon=4000))
+    return out
 
 
 def matrix_schedules(rng):
@@ -226,40 +453,60 @@ def matrix_schedules(rng):
 
 # ------------------------------------------------------------------ signatures
 def scenario(events):
-    """normalised shape of a recorded transfer: misbehaviour kind (+ where), reduction, loss/duplication"""
+    """normalised shape of a recorded execution: misbehaviour / environment decision (+ where), reduction,
+    loss/duplication, number of transfers"""
     kind = "none"
-    lastreq = None
+    lastreqs = {}
     red = False
     loss = False
+    trs = set()
     for e in events:
+        lastreq = lastreqs.get(e["tr"])
+        if e["k"] == "submit":
+            trs.add(e["tr"])
         if e["k"] == "req" and not e["rt"]:
             if lastreq is not None:
                 if 0 <= e["b1s"] < lastreq["b1s"] or (0 <= e["b2s"] < lastreq["b2s"]):
                     red = True
-            lastreq = e
+            lastreqs[e["tr"]] = e
         elif e["k"] == "resp" and not e["rt"]:
             if lastreq is not None and e["b2s"] >= 0 and lastreq["b2s"] > e["b2s"]:
                 red = True
-            if e["x"] in FAULTS and kind == "none":
+            if (e["x"] in FAULTS or e["x"] in XFAULTS or e["x"] == "shrunk") and kind == "none":
                 where = ""
-                if e["x"].startswith("b2") or e["x"] == "etag":
+                if e["x"].startswith("b2") or e["x"] in ("etag", "etsome", "e2"):
                     where = "@later" if (lastreq is not None and lastreq["b2n"] > 0) else "@first"
-                elif e["x"] == "b1num":
+                elif e["x"] in ("b1num", "e1"):
                     where = "@final" if (lastreq is not None and lastreq["b1m"] == 0) else "@intermediate"
                 kind = e["x"] + where
         elif e["k"] == "lost" or (e["k"] in ("req", "resp") and e["rt"]):
             loss = True
-    return kind, red, loss
+    return kind, red, loss, len(trs)
 
 
 def sig_of(clause, events):
-    kind, red, loss = scenario(events)
-    return "%s|fault=%s|reduction=%s|loss=%s" % (clause, kind, "yes" if red else "no", "yes" if loss else "no")
+    kind, red, loss, ntr = scenario(events)
+    return "%s|fault=%s|reduction=%s|loss=%s%s" % (clause, kind, "yes" if red else "no", "yes" if loss else "no",
+                                                    "|transfers=%d" % ntr if ntr > 1 else "")
+
+
+def describe(s):
+    if s.get("transfers"):
+        return "%d concurrent transfers %s order=%s net=%s lossy=%s" % (
+            len(s["transfers"]), [dict(N=t["N"], C=t["C"], representation=[x["len"] for x in t["reps"]][:1], s1=t["s1"], s2=t["s2"],
+                                       fault=t.get("fault")) for t in s["transfers"]], (s.get("order") or [])[:24], s.get("net"), s.get("lossy"))
+    return "N=%d C=%d representation %s s1=%s s2=%s fault=%s net=%s%s%s" % (
+        s["N"], s["C"], [x["len"] for x in s["reps"]][:1], s["s1"], s["s2"], s.get("fault"), s.get("net"),
+        " lossy=%s" % s["lossy"] if s.get("lossy") else "", " Block2 option in the request: szx %s" % s["b2req"] if s.get("b2req") is not None else "")
 
 
 def judge(rep, wd, scheds, results):
     traces = [r["events"] for r in results]
     verdicts, r = tracecheck.validate(wd, "BlockClientTrace", "BlockClientTrace.cfg.tmpl", {}, traces, timeout=1500)
+    facts = {}
+    for v in tlc.printed_values(r, "FACTS"):
+        for f in v[2]:
+            facts[f] = facts.get(f, 0) + 1
     nviol = 0
     for s, res, v in zip(scheds, results, verdicts):
         for clause in sorted(v["bad"]):
@@ -269,13 +516,172 @@ def judge(rep, wd, scheds, results):
             rep.violation(
                 clause,
                 sig_of(clause, res["events"]),
-                "clause %s false at event %d of a recorded execution (%d events): N=%d C=%d representation %s s1=%s s2=%s "
-                "fault=%s net=%s; completion %s; failing event %s"
-                % (clause, at, len(res["events"]), s["N"], s["C"], [x["len"] for x in s["reps"]][:1], s["s1"], s["s2"], s.get("fault"),
-                   s.get("net"), done, short(res["events"][at - 1])),
+                "clause %s false at event %d of a recorded execution (%d events): %s; completion %s; failing event %s"
+                % (clause, at, len(res["events"]), describe(s), done, short(res["events"][at - 1])),
                 {"schedule": s, "events": res["events"], "meta": res["meta"]},
             )
-    return nviol, r
+    return nviol, r, facts
+
+
+# ------------------------------------------------------------------ two concurrent transfers: model behaviour -> schedule
+def pair_behaviour_to_schedule(beh, seed):
+    sched = {"mid0": (seed * 151) & 0xFFFF, "tok0": (seed * 23) & 0xFFFF, "transfers": [], "order": [], "net": {}, "dedup": True}
+    expected = []
+    for label, st in beh[1:]:
+        act = st.get("act")
+        if not act or not act.get("a"):
+            continue
+        expected += list(st.get("emit", []))
+        if act["a"] == "submit":
+            for L in [st["loc"][act["i"] - 1]]:
+                sched["transfers"].append({"code": 1 if L["N"] == 0 else 2, "N": L["N"], "C": L["C"],
+                                           "reps": [{"len": L["M"], "etag": True}], "s1": [L["S"]], "s2": [L["S"]],
+                                           "ack": [L["st"]], "ackcode": 68, "query": None, "accept": None, "fault": None, "con": False})
+        elif act["a"] == "srv":
+            sched["order"].append(act["i"] - 1)
+    return sched, expected
+
+
+def compare_pair(expected, real):
+    """per transfer the same events in the same order, and the server answered in the same order"""
+    real = [e for e in real if e["k"] != "loopexc"]
+    for tr in (1, 2):
+        d = compare([e for e in expected if e["tr"] == tr and e["k"] != "end"], [e for e in real if e["tr"] == tr and e["k"] != "end"])
+        if d:
+            return "transfer %d: %s" % (tr, d)
+    xo = [e["tr"] for e in expected if e["k"] == "resp"]
+    ro = [e["tr"] for e in real if e["k"] == "resp"]
+    if xo != ro:
+        return "the server answered in the order %s, the model behaviour has %s" % (ro, xo)
+    return None
+
+
+def exercised(results, scheds=()):
+    """what the recorded executions contain (measured from the events)"""
+    kinds = {}
+    st = {"success": 0, "error": 0, "reductions": 0, "loss_or_dup": 0, "block1_transfers": 0, "block2_transfers": 0,
+          "events": 0, "never_completed": 0, "stateless_block1_acks": 0, "atomic_block1_acks": 0,
+          "transfers_with_both_ack_styles": 0,
+          # second extension
+          "transfers": 0, "error_response_returned": 0, "error_response_then_exception": 0,
+          "error_responses_delivered": {}, "error_on_block1": {"first": 0, "middle": 0, "final": 0}, "error_on_block2_continuation": 0,
+          "block1_and_block2_in_one_transfer": 0, "final_block1_ack_carrying_block2_more": 0,
+          "server_growth_block2_delivered": 0, "client_followed_server_growth": 0, "server_growth_block1_delivered": 0,
+          "restart_bigger_delivered": 0, "etag_on_some_blocks_only": 0, "representation_shrunk_4_00": 0,
+          "request_with_own_block2_option": 0,
+          "executions_with_concurrent_transfers": 0, "concurrent_answer_orders_distinct": 0, "concurrent_transfers_completed": 0,
+          "max_requests_pending_at_once": 0,
+          "lost_datagrams": 0, "retransmissions_seen": 0, "duplicate_or_late_responses": 0, "slow_or_late_copies_after_completion": 0,
+          "max_consecutive_losses_of_one_exchange": 0, "nonconfirmable_transfers": 0}
+    errclasses = {}
+    orders = set()
+    for res in results:
+        ev = res["events"]
+        st["events"] += len(ev)
+        st["request_datagrams"] = st.get("request_datagrams", 0) + res["meta"].get("datagrams", 0)
+        st["request_datagrams_with_request_tag"] = st.get("request_datagrams_with_request_tag", 0) + res["meta"].get("request_tag_datagrams", 0)
+        k, red, loss, ntr = scenario(ev)
+        kinds[k] = kinds.get(k, 0) + 1
+        st["reductions"] += red
+        st["loss_or_dup"] += loss
+        st["transfers"] += ntr
+        if ntr > 1:
+            st["executions_with_concurrent_transfers"] += 1
+            orders.add(tuple(e["tr"] for e in ev if e["k"] == "resp" and not e["rt"]))
+            pend, mx = set(), 0
+            for e in ev:
+                if e["k"] == "req":
+                    pend.add(e["tr"])
+                elif e["k"] == "resp":
+                    mx = max(mx, len(pend))
+                    pend.discard(e["tr"])
+            st["max_requests_pending_at_once"] = max(st["max_requests_pending_at_once"], mx)
+        run = 0
+        for e in ev:
+            if e["k"] == "lost":
+                st["lost_datagrams"] += 1
+                run += 1
+                st["max_consecutive_losses_of_one_exchange"] = max(st["max_consecutive_losses_of_one_exchange"], run)
+            elif e["k"] == "req" and not e["rt"]:
+                run = 0 if ntr == 1 else run
+            if e["k"] == "req" and e["rt"]:
+                st["retransmissions_seen"] += 1
+            if e["k"] == "resp" and e["rt"]:
+                st["duplicate_or_late_responses"] += 1
+        for tr in range(1, ntr + 1):
+            tev = [e for e in ev if e["tr"] == tr]
+            up = any(e["k"] == "req" and e["b1n"] > 0 for e in tev)
+            down = any(e["k"] == "req" and e["b2n"] > 0 for e in tev)
+            st["block1_transfers"] += up
+            st["block2_transfers"] += down
+            st["block1_and_block2_in_one_transfer"] += up and down
+            # acknowledgements of Block1 requests that are not the last one: 2.31/M=1 (atomic) or 2.xx/M=0 (stateless)
+            lastreq, na, ns, grown, enverr = None, 0, 0, False, False
+            first = True
+            for e in tev:
+                if e["k"] == "req":
+                    if not e["rt"]:
+                        if grown and lastreq is not None and e["b2s"] > lastreq["b2s"] >= 0:
+                            st["client_followed_server_growth"] += 1
+                        if first and e["b2n"] >= 0:
+                            st["request_with_own_block2_option"] += 1
+                        first = False
+                        lastreq = e
+                elif e["k"] == "resp" and not e["rt"] and lastreq is not None:
+                    if lastreq["b1m"] == 1 and e["b1n"] >= 0 and e["code"] < 128:
+                        if e["code"] == 95:
+                            na += 1
+                        elif e["b1m"] == 0 and 64 <= e["code"] < 96:
+                            ns += 1
+                    if lastreq["b1m"] == 0 and e["b1n"] >= 0 and e["b2m"] == 1:
+                        st["final_block1_ack_carrying_block2_more"] += 1
+                    if e["code"] >= 128:
+                        key = "%d.%02d %s" % (e["code"] >> 5, e["code"] & 31, e["x"])
+                        st["error_responses_delivered"][key] = st["error_responses_delivered"].get(key, 0) + 1
+                        if e["x"] in ("e1", "e2", "shrunk"):
+                            enverr = True
+                        if e["x"] == "e1":
+                            st["error_on_block1"]["final" if lastreq["b1m"] == 0 else "first" if lastreq["b1n"] == 0 else "middle"] += 1
+                        if e["x"] == "e2":
+                            st["error_on_block2_continuation"] += 1
+                        if e["x"] == "shrunk":
+                            st["representation_shrunk_4_00"] += 1
+                    if e["x"] == "b2grow":
+                        st["server_growth_block2_delivered"] += 1
+                        grown = True
+                    if e["x"] == "b1grow":
+                        st["server_growth_block1_delivered"] += 1
+                    if e["x"] == "b2big":
+                        st["restart_bigger_delivered"] += 1
+                    if e["x"] == "etsome":
+                        st["etag_on_some_blocks_only"] += 1
+            st["atomic_block1_acks"] += na
+            st["stateless_block1_acks"] += ns
+            st["transfers_with_both_ack_styles"] += bool(na and ns)
+            dn = [e for e in tev if e["k"] == "done"]
+            if not dn:
+                st["never_completed"] += 1
+            elif ntr > 1:
+                st["concurrent_transfers_completed"] += 1
+            for e in dn:
+                if e["x"] == "resp":
+                    st["success"] += 1
+                    if e["code"] >= 128 and enverr:
+                        st["error_response_returned"] += 1
+                else:
+                    st["error"] += 1
+                    errclasses[e["x"]] = errclasses.get(e["x"], 0) + 1
+                    if enverr:
+                        st["error_response_then_exception"] += 1
+            if dn:
+                t_done = dn[0]["t"]
+                st["slow_or_late_copies_after_completion"] += sum(1 for e in tev if e["k"] == "resp" and e["rt"] and e["t"] > t_done)
+    st["concurrent_answer_orders_distinct"] = len(orders)
+    for s in scheds:
+        for t in (s.get("transfers") or [s]):
+            st["nonconfirmable_transfers"] += not t.get("con", True)
+        st["lossy_network_executions"] = st.get("lossy_network_executions", 0) + bool(s.get("lossy"))
+    return kinds, st, errclasses
 
 
 def work(rep, args):
@@ -303,48 +709,97 @@ def work(rep, args):
     # quick: every length within one byte of a block boundary of any modelled size; thorough: every length
     edgeN = sorted({x for b in range(0, 131, 16) for x in (b - 1, b, b + 1) if 0 <= x <= 130} | {130})
     if quick:
-        consts = dict(Ns=edgeN, Ms=edgeN, NsWide=[65], MsFew=[0, 40], MsNoEtag=[40], styles=['"a"', '"s"'])
+        shortN = [x for x in edgeN if x <= 81] + [130]
+        consts = dict(Ns=shortN, Ms=shortN, NsWide=[65], MsFew=[0, 40], MsNoEtag=[40], styles=['"a"', '"s"'])
+        ecodes, elens = [141], [0, 5]
+        netc = dict(Ns=[0, 17, 33, 65], Ms=[0, 40], nb=3)
+        pairc = dict(ns="0, 40", ms="0, 40", cs="1", ss="1")
     else:
         consts = dict(Ns=allN, Ms=allN, NsWide=[0, 70, 130], MsFew=[0, 40, 100], MsNoEtag=[40], styles=['"a"', '"s"', '"as"', '"sa"'])
+        ecodes, elens = [128, 141, 163], [0, 5]
+        netc = dict(Ns=edgeN, Ms=[0, 17, 40, 100], nb=4)
+        pairc = dict(ns="0, 40, 65", ms="0, 40", cs="0, 1", ss="0, 1")
+    common = dict(xf=XF_ALL, ecodes=cset(ecodes), elens=cset(elens))
     with tlc.Workdir() as wd:
         def mc():
             cfg = "BlockClient_mc.cfg"
-            wd.write(cfg, CFG % dict({k: cset(v) for k, v in consts.items()}, at="0", comb="FALSE" if quick else "TRUE", extra="VIEW View\nINVARIANT NoBad\nINVARIANT Completes"))
-            return tlc.run(wd, "BlockClient.tla", cfg, timeout=600 if quick else 2400, heap="8g")
+            wd.write(cfg, CFG % dict({k: cset(v) for k, v in consts.items()}, at="0", comb="FALSE" if quick else "TRUE", nb=1, fbud=1,
+                                     extra="VIEW View\nINVARIANT NoBad\nINVARIANT Completes", **common))
+            return tlc.run(wd, "BlockClient.tla", cfg, timeout=900 if quick else 3000, heap="8g")
 
-        wd.write("BlockClient_sim.cfg", CFG % dict(Ns=cset(allN), Ms=cset(edgeN + [7, 40, 100]), NsWide=cset(allN), MsFew="0", MsNoEtag=cset([16, 17, 33, 40, 64, 65, 100, 129]), at=cset(range(1, 15)), comb="TRUE", styles='"a", "s", "as", "sa"', extra=""))
+        def netmc():
+            # several lost / duplicated datagrams per transfer (also the same one repeatedly), no fault
+            cfg = "BlockClient_net.cfg"
+            wd.write(cfg, CFG % dict(Ns=cset(netc["Ns"]), Ms=cset(netc["Ms"]), NsWide=cset(netc["Ns"]), MsFew="0", MsNoEtag="",
+                                     styles='"a", "s"', at="0", comb="TRUE", nb=netc["nb"], fbud=0,
+                                     extra="VIEW View\nINVARIANT NoBad\nINVARIANT Completes", xf="", ecodes="141", elens="0"))
+            return tlc.run(wd, "BlockClient.tla", cfg, timeout=900 if quick else 2400, heap="4g", workers=4)
+
+        wd.write("BlockClient_sim.cfg", CFG % dict(Ns=cset(allN), Ms=cset(edgeN + [7, 40, 100]), NsWide=cset(allN), MsFew="0", MsNoEtag=cset([16, 17, 33, 40, 64, 65, 100, 129]), at=cset(range(1, 15)), comb="TRUE", nb=1, fbud=1, styles='"a", "s", "as", "sa"', extra="",
+                                                   xf=XF_ALL, ecodes=cset(ERRCODES), elens="0, 5"))
         simdir = wd.file("sim")
         os.makedirs(simdir)
-        nsim = 300 if quick else 4000
+        nsim = 150 if quick else 4000
 
         def sim():
             return tlc.run(wd, "BlockClient.tla", "BlockClient_sim.cfg", workers=1, timeout=900 if quick else 2400,
                            simulate="file=%s/tr,num=%d" % (simdir, nsim), depth=80, seed=args.seed + 1)
 
-        with ThreadPoolExecutor(2) as ex:
-            fmc = ex.submit(mc)
-            fsim = ex.submit(sim)
-            mcr = fmc.result()
-            simr = fsim.result()
+        def pairmc(fresh=True):
+            cfg = "BlockClientPair_%s.cfg" % ("mc" if fresh else "bad")
+            wd.write(cfg, PAIR_CFG % dict(pairc if fresh else dict(ns="0, 40", ms="0, 40", cs="1", ss="1"), fresh="TRUE" if fresh else "FALSE",
+                                          extra="VIEW View\nINVARIANT NoBad\nINVARIANT Completes\nINVARIANT NoneStranded"))
+            return tlc.run(wd, "BlockClientPair.tla", cfg, timeout=900 if quick else 2400, heap="4g", workers=4 if fresh else 1)
+
+        wd.write("BlockClientPair_sim.cfg", PAIR_CFG % dict(ns="0, 17, 40, 65, 100", ms="0, 17, 40, 100", cs="0, 1, 2", ss="0, 1, 2", fresh="TRUE", extra=""))
+        psimdir = wd.file("psim")
+        os.makedirs(psimdir)
+        npsim = 30 if quick else 1500
+
+        def pairsim():
+            return tlc.run(wd, "BlockClientPair.tla", "BlockClientPair_sim.cfg", workers=1, timeout=900 if quick else 2400,
+                           simulate="file=%s/tr,num=%d" % (psimdir, npsim), depth=120, seed=args.seed + 2)
+
+        with ThreadPoolExecutor(6) as ex:
+            # (the known-bad variant of the pair model is re-checked in the thorough tier only)
+            futs = [ex.submit(f) for f in (mc, sim, netmc, pairmc, pairsim)] + ([] if quick else [ex.submit(pairmc, False)])
+            res = [f.result() for f in futs]
+            mcr, simr, netr, pairr, psimr = res[:5]
+            badr = res[5] if len(res) > 5 else None
         lap("tlc_exhaustive_and_simulation")
-        tlc.need_ok_run(mcr, "BlockClient model check")
-        if mcr.violated:
-            raise MachineryError("BlockClient model (design with the first-block check) violates %s\n%s" % (mcr.violated, mcr.out[-1500:]))
+        for r, what in ((mcr, "BlockClient model check"), (netr, "BlockClient model check (loss budget)"), (pairr, "BlockClientPair model check")):
+            tlc.need_ok_run(r, what)
+            if r.violated:
+                raise MachineryError("%s: the design violates %s\n%s" % (what, r.violated, r.out[-1500:]))
+        if badr is not None:
+            tlc.need_ok_run(badr, "BlockClientPair known-bad variant")
+        if badr is not None and not badr.violated:
+            raise MachineryError("BlockClientPair with a token handed out twice (FreshTokens = FALSE) violates nothing: the pair model is insensitive")
         tlc.need_ok_run(simr, "BlockClient simulation")
+        tlc.need_ok_run(psimr, "BlockClientPair simulation")
         behaviours = tlc.read_sim_traces(os.path.join(simdir, "tr"))
         model = [behaviour_to_schedule(b, i) for i, b in enumerate(behaviours)]
         model = [(s, e) for s, e in model if e and e[-1]["k"] == "end"]
         if len(model) < nsim // 2:
             raise MachineryError("only %d of %d simulated behaviours are complete transfers" % (len(model), nsim))
-        rand = [random_schedule(rng, i) for i in range(300 if quick else 8000)]
+        pmodel = [pair_behaviour_to_schedule(b, i) for i, b in enumerate(tlc.read_sim_traces(os.path.join(psimdir, "tr")))]
+        pmodel = [(s, e) for s, e in pmodel if e and e[-1]["k"] == "end"]
+        if len(pmodel) < npsim // 2:
+            raise MachineryError("only %d of %d simulated two-transfer behaviours are complete" % (len(pmodel), npsim))
+        rand = [random_schedule(rng, i) for i in range(200 if quick else 8000)]
+        multi = [random_multi(rng) for i in range(40 if quick else 2500)]
         matrix = matrix_schedules(rng)
-        scheds = [s for s, _ in model] + rand + matrix
+        xmatrix = xmatrix_schedules(rng, quick)
+        if not quick:
+            for _ in range(3):
+                xmatrix += xmatrix_schedules(rng, quick)
+        scheds = [s for s, _ in model] + [s for s, _ in pmodel] + rand + multi + matrix + xmatrix
         lap("schedules")
         results = run_all(scheds)
         lap("real_executions")
         for s, res in zip(scheds, results):
             if "error" in res:
-                raise MachineryError("driver failed on schedule %s\n%s" % (json.dumps(s)[:400], res["error"]))
+                raise MachineryError("driver failed on schedule %s\n%s" % (json.dumps(s)[:600], res["error"]))
         ndrift = 0
         for (s, exp), res in zip(model, results):
             d = compare(exp, res["events"])
@@ -352,55 +807,38 @@ def work(rep, args):
                 ndrift += 1
                 rep.add_drift("model behaviour not reproduced by implementation (N=%d C=%d fault=%s net=%s): %s"
                               % (s["N"], s["C"], s["fault"], s["net"], d))
-        nviol, tr = judge(rep, wd, scheds, results)
+        npdrift = 0
+        for (s, exp), res in zip(pmodel, results[len(model):]):
+            d = compare_pair(exp, res["events"])
+            if d:
+                npdrift += 1
+                rep.add_drift("two-transfer model behaviour not reproduced by implementation (%s): %s" % (describe(s), d))
+        nviol, tr, facts = judge(rep, wd, scheds, results)
         lap("trace_validation")
 
         # ---- what was actually exercised
-        kinds = {}
-        stats = {"success": 0, "error": 0, "reductions": 0, "loss_or_dup": 0, "block1_transfers": 0, "block2_transfers": 0,
-                 "events": 0, "never_completed": 0, "stateless_block1_acks": 0, "atomic_block1_acks": 0,
-                 "transfers_with_both_ack_styles": 0}
-        errclasses = {}
-        for res in results:
-            ev = res["events"]
-            stats["events"] += len(ev)
-            k, red, loss = scenario(ev)
-            kinds[k] = kinds.get(k, 0) + 1
-            stats["reductions"] += red
-            stats["loss_or_dup"] += loss
-            stats["block1_transfers"] += any(e["k"] == "req" and e["b1n"] > 0 for e in ev)
-            # acknowledgements of Block1 requests that are not the last one: 2.31/M=1 (atomic) or 2.xx/M=0 (stateless)
-            lastreq, na, ns = None, 0, 0
-            for e in ev:
-                if e["k"] == "req":
-                    lastreq = e
-                elif e["k"] == "resp" and not e["rt"] and lastreq is not None and lastreq["b1m"] == 1 and e["b1n"] >= 0:
-                    if e["code"] == 95:
-                        na += 1
-                    elif e["b1m"] == 0 and 64 <= e["code"] < 96:
-                        ns += 1
-            stats["atomic_block1_acks"] += na
-            stats["stateless_block1_acks"] += ns
-            stats["transfers_with_both_ack_styles"] += bool(na and ns)
-            stats["block2_transfers"] += any(e["k"] == "req" and e["b2n"] > 0 for e in ev)
-            dn = [e for e in ev if e["k"] == "done"]
-            if not dn:
-                stats["never_completed"] += 1
-            for e in dn:
-                if e["x"] == "resp":
-                    stats["success"] += 1
-                else:
-                    stats["error"] += 1
-                    errclasses[e["x"]] = errclasses.get(e["x"], 0) + 1
+        kinds, stats, errclasses = exercised(results, scheds)
         if not nviol:
-            missing = [f for f in FAULTS if not any(k.startswith(f) for k in kinds)]
+            missing = [f for f in FAULTS + XFAULTS + ["shrunk"] if not any(k.startswith(f) for k in kinds)]
             stats["fault_kinds_never_delivered"] = missing
             if len(missing) > 2:
                 raise MachineryError("faults never delivered to the implementation: %s" % missing)
             for key in ("success", "error", "reductions", "loss_or_dup", "block1_transfers", "block2_transfers",
-                        "stateless_block1_acks", "atomic_block1_acks", "transfers_with_both_ack_styles"):
+                        "stateless_block1_acks", "atomic_block1_acks", "transfers_with_both_ack_styles",
+                        "error_response_returned", "error_on_block2_continuation", "block1_and_block2_in_one_transfer",
+                        "final_block1_ack_carrying_block2_more", "server_growth_block2_delivered", "restart_bigger_delivered",
+                        "etag_on_some_blocks_only", "representation_shrunk_4_00", "executions_with_concurrent_transfers",
+                        "concurrent_transfers_completed", "lost_datagrams", "duplicate_or_late_responses", "request_with_own_block2_option",
+                        "nonconfirmable_transfers", "lossy_network_executions", "slow_or_late_copies_after_completion"):
                 if not stats[key]:
                     raise MachineryError("vacuous run: no recorded transfer with %s" % key)
+            if min(stats["error_on_block1"].values()) == 0:
+                raise MachineryError("vacuous run: error responses to Block1 requests %s" % stats["error_on_block1"])
+            if stats["max_requests_pending_at_once"] < 2:
+                raise MachineryError("vacuous run: the server never held requests of two transfers at once")
+            for f in ("error-response-returned", "bodies", "bodies-after-hidden-change", "bodies-after-server-growth", "violation-delivered"):
+                if not facts.get(f):
+                    raise MachineryError("vacuous run: the monitor never reached the judgement %s (%s)" % (f, facts))
         rep.coverage.update(
             {
                 "states": mcr.distinct, "transitions": mcr.generated, "depth": mcr.depth, "mc_wall_s": round(mcr.wall, 1),
@@ -408,25 +846,41 @@ def work(rep, args):
                                  "request_lengths_combined_with_all_representation_lengths": consts["NsWide"],
                                  "representation_lengths_combined_with_all_request_lengths": consts["MsFew"],
                                  "size_exponents": [0, 1, 2], "faults_per_transfer": 1, "lost_or_duplicated_per_transfer": 1,
-                                 "fault_and_loss_in_one_transfer": not quick},
+                                 "fault_and_loss_in_one_transfer": not quick,
+                                 "environment_decisions_besides_the_faults": XF_ALL.replace('"', ""), "error_codes": ecodes,
+                                 "diagnostic_payload_lengths": elens},
+                "loss_budget_configuration": {"states": netr.distinct, "transitions": netr.generated, "depth": netr.depth,
+                                              "wall_s": round(netr.wall, 1), "lost_or_duplicated_per_transfer": netc["nb"],
+                                              "request_lengths": netc["Ns"], "representation_lengths": netc["Ms"]},
+                "pair_model": {"states": pairr.distinct, "transitions": pairr.generated, "depth": pairr.depth, "wall_s": round(pairr.wall, 1),
+                               "constants": pairc, "known_bad_variant_token_handed_out_twice_violates": badr.violated if badr is not None else "thorough tier only",
+                               "known_bad_states": badr.distinct if badr is not None else 0},
                 "traces_validated_against_impl": len(results),
                 "phase_wall_s": phases,
                 "schedules_from_model_behaviours": len(model),
                 "model_behaviours_reproduced_exactly": len(model) - ndrift,
-                "random_schedules": len(rand), "fault_matrix_schedules": len(matrix),
+                "schedules_from_two_transfer_model_behaviours": len(pmodel),
+                "two_transfer_model_behaviours_reproduced_exactly": len(pmodel) - npdrift,
+                "random_schedules": len(rand), "random_concurrent_schedules": len(multi), "fault_matrix_schedules": len(matrix),
+                "second_extension_matrix_schedules": len(xmatrix),
                 "scenario_kinds": kinds, "exercised": stats, "error_classes": errclasses,
+                "monitor_judgements_traces": facts,
                 "samples": [{"schedule": scheds[0], "events": [short(e) for e in results[0]["events"][:12]]},
+                            {"schedule": scheds[len(model)], "events": [short(e) for e in results[len(model)]["events"][:16]]},
                             {"schedule": scheds[-1], "events": [short(e) for e in results[-1]["events"][:12]]}],
                 "exhaustive": True,
-                "checker_cmd": "tlc BlockClient.tla (2 exhaustive configurations + -simulate); tlc BlockClientTrace.tla on recorded traces",
+                "checker_cmd": "tlc BlockClient.tla (fault configuration + loss-budget configuration + -simulate); tlc BlockClientPair.tla (exhaustive, known-bad variant, -simulate); tlc BlockClientTrace.tla on recorded traces",
             }
         )
         rep.assumptions += [
             "the reference server of harness/blockclientdrive.py is a faithful RFC 7959 server (intervals, Block2 slices, ETag); it shares no code with aiocoap (own codec harness/wire.py)",
             "bodies are self-describing canonical strings (harness/drive.py canon/identify): misplaced, duplicated, missing or mixed bytes are visible",
             "which exception class ends a faulted transfer, whether Size1 is sent, the request method and whether the client honours its own maximum are not judged",
-            "a Block2 block that announces more blocks but carries no payload at all, payloads longer than the block size, and a changed representation that is shorter than the offset already reached are outside the generated domain",
-            "at most MAX_RETRANSMIT consecutive losses of one datagram (no transfer is driven into a message-layer timeout)",
+            "after an error response of the server (4.xx / 5.xx as acknowledgement of a Block1 request or as answer to a Block2 continuation) both a returned error response (it must be one the server sent, code and payload) and an exception are accepted; a restart of the upload at block 0 would be accepted too",
+            "a server that answers above the requested size exponent with the right bytes has violated the protocol in a way the statement does not name: failing and going on (also at the server's larger exponent) are both accepted, the bodies are judged as usual",
+            "a change of the representation that no ETag shows is outside the statement; the returned body is only required to consist of the server's bytes at their own positions and to end where one of the two representations ends",
+            "concurrent transfers go to different resources (the client uses no Request-Tag; an RFC 7959 server cannot keep two uploads to one resource apart): requests are attributed to a transfer by their Uri-Path",
+            "at most MAX_RETRANSMIT - 1 consecutive losses of one exchange (no transfer is driven into a message-layer timeout)",
         ]
 
 
